@@ -13,6 +13,7 @@ QUICK_RUNS = 16000
 THOROUGH_MIN_RUNS = 40000
 BATCH = 100
 CASE_WALL_S = 60.0
+ISOLATE = True      # every run in a forked child: no interpreter state leaks from one simulated server to the next
 RULE = ("case = the real Arbiter started as simulated root with user/group given as name, numeric id, or only one of the two, "
         "initgroups on/off, TCP or unix bind, under a seeded history of {worker killed, HUP, USR2 (new master), TTIN} that creates "
         "new worker generations, with EPERM injected into setgid / setuid / initgroups / chown at a seeded call.  Every worker runs "
@@ -31,8 +32,8 @@ COMPONENTS = {"real": ["util.set_owner_process/chown", "Worker.init_process", "A
                        "WorkerTmp (chown of the heartbeat file)", "sock.UnixSocket.bind (chown of the socket file)", "Config uid/gid resolution"],
               "stub": ["kernel credentials / file ownership", "worker run loop after load_wsgi"]}
 
-USERS = [None, 33, "www-data", "daemon", 1, 65534, "nobody", 1000]
-GROUPS = [None, 33, "www-data", "daemon", 1, 65534, "nogroup", 2000]
+USERS = [None, 33, "www-data", "daemon", 1, 65534, "nobody", 1000, 54321]   # 54321: no passwd entry
+GROUPS = [None, 33, "www-data", "daemon", 1, 65534, "nogroup", 2000, 54321]
 NAME2UID = {"www-data": 33, "daemon": 1, "nobody": 65534}
 NAME2GID = {"www-data": 33, "daemon": 1, "nogroup": 65534}
 
@@ -44,7 +45,12 @@ def make_case(index, rng, tier):
     t = 0.5
     for _ in range(rng.randrange(1, 5)):
         t += rng.uniform(0.3, 1.5)
-        evs.append({"t": round(t, 2), "do": rng.choice(["killw", "hup", "usr2", "ttin", "killw"])})
+        evs.append({"t": round(t, 2), "do": rng.choice(["killw", "hup", "usr2", "ttin", "killw", "hup_identity"])})
+        if evs[-1]["do"] == "hup_identity":
+            evs[-1]["user"] = rng.choice(USERS[1:])
+            evs[-1]["group"] = rng.choice(GROUPS[1:])
+    if any(e["do"] == "hup_identity" for e in evs) and rng.randrange(2) == 0:
+        user = group = None            # start without an identity, a reload introduces one
     fault = None
     if rng.randrange(4) == 0:
         fault = {"op": rng.choice(["setgid", "setuid", "initgroups", "chown"]), "nth": rng.randrange(1, 5)}
@@ -67,8 +73,12 @@ def run(case, choices):
     if case["group"] is not None:
         cfg["group"] = case["group"]
     w = master.World(sim, cfg)
-    want_uid = NAME2UID.get(case["user"], case["user"]) if case["user"] is not None else 0
-    want_gid = NAME2GID.get(case["group"], case["group"]) if case["group"] is not None else 0
+    ident = {"user": case["user"], "group": case["group"]}
+
+    def wanted():
+        u, g = ident["user"], ident["group"]
+        return (NAME2UID.get(u, u) if u is not None else 0, NAME2GID.get(g, g) if g is not None else 0)
+    want_uid, want_gid = wanted()
     loads = []
     calls = {"setgid": 0, "setuid": 0, "initgroups": 0, "chown": 0}
     fault = case["fault"]
@@ -85,8 +95,17 @@ def run(case, choices):
     def on_load(p):
         a = None
         gen = "initial" if sim.now < case["events"][0]["t"] else "later"
-        loads.append({"pid": p.pid, "name": p.name, "ppid": p.ppid, "t": sim.now, "uids": (p.ruid, p.euid, p.suid),
+        wk_cfg = None
+        for mp_ in list(w.masters.values()):
+            pass
+        loads.append({"pid": p.pid, "name": p.name, "ppid": p.ppid, "t": sim.now, "uids": (p.ruid, p.euid, p.suid), "want": state_want(p),
                       "gids": (p.rgid, p.egid, p.sgid), "groups": sorted(p.groups), "gen": gen})
+    def state_want(p):
+        # the identity a worker must have is the one of the configuration its master had loaded when it forked it
+        a = w.masters.get(p.pid)       # the child's clone of the arbiter (still registered during boot)
+        if a is not None:
+            return (a.cfg.uid, a.cfg.gid)
+        return wanted()
     w.on_app_load = on_load
     m = w.start_master()
     masters = [m]
@@ -108,6 +127,13 @@ def run(case, choices):
             if lw:
                 sim.fault("worker_killed")
                 sim.kill(lw[0].pid, int(signal.SIGKILL))
+        elif k == "hup_identity":
+            w.cfgsrc["user"] = ev["user"]
+            w.cfgsrc["group"] = ev["group"]
+            ident["user"], ident["group"] = ev["user"], ev["group"]
+            sim.fault("master_signal:hup_identity")
+            sim.probe("hup_changes_identity")
+            sim.kill(m.pid, int(signal.SIGHUP))
         else:
             sim.fault("master_signal:" + k)
             sim.kill(m.pid, int({"hup": signal.SIGHUP, "usr2": signal.SIGUSR2, "ttin": signal.SIGTTIN}[k]))
@@ -122,8 +148,10 @@ def run(case, choices):
             raise master.HarnessError(sim.crash)
         spell = "%s/%s" % ("name" if isinstance(case["user"], str) else "id" if case["user"] is not None else "unset",
                            "name" if isinstance(case["group"], str) else "id" if case["group"] is not None else "unset")
+        changed = any(e["do"] == "hup_identity" for e in case["events"])
         for l in loads:
             gen = "upgraded-master" if l["ppid"] != m.pid else l["gen"]
+            want_uid, want_gid = l["want"]
             if set(l["uids"]) != {want_uid}:
                 res.violate("C20:uid:%s:%s" % (spell, gen), "worker pid %d (%s) loaded the application with uids (real, effective, saved)=%r, "
                             "configured uid %r; %s" % (l["pid"], gen, l["uids"], want_uid, ctx()))
@@ -131,12 +159,13 @@ def run(case, choices):
                 res.violate("C20:gid:%s:%s" % ("initgroups" if case["initgroups"] else "no-initgroups", spell),
                             "worker pid %d (%s) loaded the application with gids (real, effective, saved)=%r, configured gid %r "
                             "(initgroups=%s); %s" % (l["pid"], gen, l["gids"], want_gid, case["initgroups"], ctx()))
-            if case["initgroups"] and case["user"] is not None and case["group"] is not None and want_uid in sim.passwd:
+            if case["initgroups"] and want_uid and want_gid and want_uid in sim.passwd and not changed:
                 exp = sorted(set(sim.passwd[want_uid][2]) | {want_gid})
                 if l["groups"] != exp:
                     res.violate("C20:groups:%s" % spell, "worker pid %d: supplementary groups %r, expected %r for user %r; %s"
                                 % (l["pid"], l["groups"], exp, sim.passwd[want_uid][0], ctx()))
         if not fault and not loads and not (case["initgroups"] and case["user"] is None and case["group"] is not None):
+            want_uid, want_gid = wanted()
             # floor: without any injected failure the configured identity must be reachable and workers must boot
             # (initgroups with a group but no user has no user name to look up: a refusal to boot is accepted there)
             res.violate("C20:no-worker-booted:%s" % spell, "no worker ever reached the application although no privilege call was made to "
@@ -152,10 +181,12 @@ def run(case, choices):
                 continue
             for pid, wk in a.WORKERS.items():
                 ino = wk.tmp._tmp.ofd.obj
+                want_uid, want_gid = wk.cfg.uid, wk.cfg.gid
                 if (ino.uid, ino.gid) != (want_uid, want_gid) and (want_uid, want_gid) != (0, 0):
                     res.violate("C20:heartbeat-file-owner", "worker pid %d: heartbeat file owned by %d:%d, configured %d:%d; %s"
                                 % (pid, ino.uid, ino.gid, want_uid, want_gid, ctx()))
-        if case["unix"] and "/run/g.sock" in sim.fs and m.state == "running":
+        want_uid, want_gid = NAME2UID.get(case["user"], case["user"]) or 0, NAME2GID.get(case["group"], case["group"]) or 0
+        if case["unix"] and "/run/g.sock" in sim.fs and m.state == "running" and not changed:
             n = sim.fs["/run/g.sock"]
             if (n.uid, n.gid) != (want_uid, want_gid):
                 res.violate("C20:unix-socket-owner", "unix socket owned by %d:%d, configured %d:%d; %s" % (n.uid, n.gid, want_uid, want_gid, ctx()))
